@@ -60,7 +60,9 @@ def f_tables(case):
 def f_placement(case):
     """gate placed at qubits q of an N register acting on all phased operators (N<=3) through forward / circuit."""
     name, N, q = case['gate'], case['N'], case['qubits']
-    g = getattr(pc, name)(*q) if name != 'C' else pc.C(case['num'], *q)
+    lab = getattr(np, case['labels']) if case.get('labels') else int      # qubit labels as Python ints or NumPy integer scalars (elements of an index array)
+    ql = [lab(x) for x in q]
+    g = getattr(pc, name)(*ql) if name != 'C' else pc.C(case['num'], *ql)
     if name == 'CNOT':
         c, t = q
         exp = _stmt_ref('CNOT').embed([c, t], N)       # rows order (X_c,Z_c,X_t,Z_t) -> wires (c,t)
@@ -125,6 +127,9 @@ def f_placement(case):
     return {'nt': True, 'nt_sub': np.nonzero(changed)[0].tolist(), 'sub_evals': len(K), 'labels': [name, 'N=%d' % N]}
 
 
+LABEL_FORMS = ['int64', 'intp', 'int8', 'uint8', 'uint16', 'uint32', 'uint64']
+
+
 def enum_placement(tier, shard, nshards):
     n = 0
     for N in (1, 2, 3, 4) if tier == 'thorough' else (1, 2, 3):
@@ -134,6 +139,9 @@ def enum_placement(tier, shard, nshards):
                     n += 1
                     if n % nshards == shard:
                         yield {'gate': name, 'N': N, 'qubits': [q], 'via': via}
+                n += 1
+                if n % nshards == shard:
+                    yield {'gate': name, 'N': N, 'qubits': [q], 'via': 'circuit-compiled', 'labels': LABEL_FORMS[(q + N + ord(name)) % len(LABEL_FORMS)]}
         for c in range(N):
             for t in range(N):
                 if c != t:
@@ -141,6 +149,10 @@ def enum_placement(tier, shard, nshards):
                         n += 1
                         if n % nshards == shard:
                             yield {'gate': 'CNOT', 'N': N, 'qubits': [c, t], 'via': via}
+                    for k, labels in enumerate(LABEL_FORMS):
+                        n += 1
+                        if n % nshards == shard:
+                            yield {'gate': 'CNOT', 'N': N, 'qubits': [c, t], 'via': ('gate', 'circuit', 'circuit-compiled', 'layer-compiled')[(k + c + t) % 4], 'labels': labels}
         for num in range(24):
             for q in range(N):
                 n += 1
